@@ -18,8 +18,8 @@ RC=$?
 cd "$ROOT"
 if [ ! -f ocaml/model.ml ]; then echo "SETUP: extraction failed"; tail -30 build/make.log; exit 1; fi
 cd ocaml
-ocamlfind ocamlopt -O3 -w -a -package str model.mli model.ml sx.ml glue_*.ml main.ml -o ../build/driver 2> ../build/ocaml.log \
-  || ocamlfind ocamlopt -w -a -package str model.mli model.ml sx.ml glue_*.ml main.ml -o ../build/driver 2> ../build/ocaml.log \
+ocamlfind ocamlopt -O3 -w -a -package str model.mli model.ml sx.ml sxlib_*.ml glue_*.ml main.ml -o ../build/driver 2> ../build/ocaml.log \
+  || ocamlfind ocamlopt -w -a -package str model.mli model.ml sx.ml sxlib_*.ml glue_*.ml main.ml -o ../build/driver 2> ../build/ocaml.log \
   || { echo "SETUP: driver build failed"; cat ../build/ocaml.log; exit 1; }
 cd "$ROOT"
 if [ $RC -ne 0 ]; then echo "SETUP: coq build had errors"; grep -B2 -A12 'Error' build/make.log | head -60; exit 1; fi
